@@ -125,7 +125,7 @@ def at_scale_case(ctx, g, rng):
 
 
 def run_case(ctx, g, rng):
-    if g % 150 == 150 - 1:
+    if g % 151 == 151 - 1:
         return at_scale_case(ctx, g, rng)
     api, S = ctx.api, probe.S
     C = api.Converter
